@@ -3,6 +3,7 @@ C15 — provider stream decoding is lossless and chunking-invariant.
 Property theorems only. Model: Rip/Model/Sse.lean, Rip/Model/Utf8.lean.
 -/
 import Rip.Lemmas.Sse
+import Rip.Lemmas.SseChunk
 namespace Rip.Props.C15
 open Rip.Proto Rip.Sse
 
@@ -11,6 +12,18 @@ other yields the same events and the same decoder state as feeding their concate
 split position, including between CR and LF, inside a field name, inside `[DONE]`. -/
 theorem decoder_chunk_invariant (d : Dec) (cs : List Bytes) : d.feedAll cs = d.push cs.flatten :=
   feedAll_flatten d cs
+
+/-- **Byte-level chunk invariance of the whole pipe.** For every byte string — valid UTF-8 or not —
+and every way of splitting it into chunks (inside a multi-byte character, between CR and LF, inside
+a field name, byte by byte, with empty chunks), the frames produced by the read loop, the final
+counter and the done flag are those of the unsplit body. Proof in Rip/Lemmas/SseChunk.lean: the
+UTF-8 carry is characterised by an inductive lossy-decoding relation that composes under
+concatenation; two pushes equal one push up to everything after `[DONE]`. -/
+theorem bytes_chunk_invariant (δ : Bytes → Option Bytes) (start : Nat) (cs : List Bytes) :
+    (feed δ start cs).out = (feed δ start [cs.flatten]).out ∧
+    (feed δ start cs).seq = (feed δ start [cs.flatten]).seq ∧
+    (feed δ start cs).done = (feed δ start [cs.flatten]).done :=
+  Rip.Sse.bytes_chunk_invariant δ start cs
 
 /-- **Exactly one provider frame per server-sent event, in order, payload unchanged** (the terminal
 marker and non-JSON payloads included): the provider frames of a mapped event list are the events. -/
